@@ -1729,5 +1729,8 @@ def partition_distance(cx, cy):
     Hxy = -np.sum(Pxy * np.log(Pxy))
 
     Vin = (2 * Hxy - Hx - Hy) / np.log(n)
-    Min = 2 * (Hx + Hy - Hxy) / (Hx + Hy)
+    if Hx + Hy == 0:
+        Min = 1.0  # both partitions are one community: identical
+    else:
+        Min = 2 * (Hx + Hy - Hxy) / (Hx + Hy)
     return Vin, Min
